@@ -612,7 +612,7 @@ func suiteShare(e *Env) {
 				}
 			case x < 13:
 				r.queries(i)
-			case x < 14 && e.Tier == "thorough" && !r.slashed && e.R.N(4) == 0:
+			case x < 14 && !r.slashed && e.R.N(4) == 0 && (e.Tier == "thorough" || h%3 == 1):
 				// slash a validator through the real staking keeper (as evidence handling would)
 				cons := sdk.ConsAddress(nil)
 				power := int64(0)
